@@ -137,6 +137,15 @@ def read_align():
     names = [e.value for e in opts.elts]
     if names != ['left', 'center', 'right']:
         raise TranslateError('align: alignment_options is %s' % names)
+    # the re-timed copies drop the library id of the input: `if hasattr(objects[i], 'id'): delattr(objects[i], 'id')`
+    # as the first statement of the delay loop
+    loops = [n for n in ast.walk(fn) if isinstance(n, ast.For) and unparse(n.iter) == 'range(len(objects))']
+    if len(loops) != 1:
+        raise TranslateError('align: delay loop not found')
+    first = loops[0].body[0]
+    if not (isinstance(first, ast.If) and unparse(first.test) == "hasattr(objects[i], 'id')"
+            and [unparse(b) for b in first.body] == ["delattr(objects[i], 'id')"] and not first.orelse):
+        raise TranslateError('align: the copies do not drop the library id first (%s)' % unparse(first)[:80])
     return names
 
 
@@ -170,6 +179,8 @@ def sec_gradops():
     out += '(* align.py: alignment_options = [left; center; right] -> 0, 1, 2 *)\n'
     out += 'Definition align_left : nat := 0%nat.\nDefinition align_center : nat := 1%nat.\n'
     out += 'Definition align_right : nat := 2%nat.\n'
+    out += '(* align.py: the re-timed copies drop the library id of the input event *)\n'
+    out += 'Definition align_drops_id : bool := true.\n'
     out += '(* pypulseq.eps *)\n'
     out += 'Definition pp_eps : Q := %s.\n' % coq_Q(eps)
     return out
